@@ -40,7 +40,7 @@ REGISTRY = {
     'C01': dict(mods=['C01', 'C03'], thms=['C01_catalogue_wf', 'C01_catalogue_count', 'C01_roundtrip_generic', 'C01_method_roundtrip', 'C01_scalar_args_exact', 'C01_none_table'],
                 tie=['tieA_table_mapping', 'tieA_methods', 'tieA_struct_formats', 'tieA_struct_uses', 'tieA_envelope_struct_uses', 'tieA_frame_constants', 'tieA_codec_calls'],
                 lanes=['args/args.marshal,args.unmarshal', 'frame/frame.marshal.M,frame.unmarshal.M,frame.envelope', 'enc_prim', 'dec_prim'], oracles=['c01']),
-    'C02': dict(mods=['C02'], thms=['C02_flags_wf', 'C02_flags_msb_first', 'C02_class_id', 'C02_roundtrip_generic', 'C02_header_roundtrip', 'C02_signed_flag_word', 'C02_cluster_id_default'],
+    'C02': dict(mods=['C02', 'C02Reencode'], thms=['C02_flags_wf', 'C02_flags_msb_first', 'C02_class_id', 'C02_roundtrip_generic', 'C02_header_roundtrip', 'C02_signed_flag_word', 'C02_cluster_id_default', 'C02_float_idempotent', 'C02_norm_invisible', 'C02_defaults_unset', 'C02_reencode_generic'],
                 tie=['tieA_methods', 'tieA_struct_formats', 'tieA_struct_uses', 'tieA_envelope_struct_uses', 'tieA_content_header_struct_uses', 'tieA_frame_constants', 'tieA_codec_calls'],
                 lanes=['props', 'frame/frame.marshal.H,frame.unmarshal.H,frame.envelope'], oracles=['c02']),
     'C03': dict(mods=['C03'], thms=['C03_value_roundtrip', 'C03_table_roundtrip', 'C03_array_roundtrip', 'C03_type_preserved', 'C03_int_bool_exact', 'C03_keys_preserved', 'C03_decimal_value'],
@@ -49,7 +49,7 @@ REGISTRY = {
     'C04': dict(mods=['C04'], thms=['C04_value_refines_spec', 'C04_value_sorted', 'C04_args_refine_spec', 'C04_envelope_layout', 'C04_header_payload_layout', 'C04_fixed_frames'],
                 tie=['tieA_methods', 'tieA_struct_formats', 'tieA_struct_uses', 'tieA_envelope_struct_uses', 'tieA_protocol_header_struct_uses', 'tieA_content_header_struct_uses', 'tieA_frame_constants', 'tieA_ladder', 'tieA_codec_calls'],
                 lanes=['enc_prim', 'enc_tint', 'enc_value:ok', 'enc_value:any', 'args/args.marshal', 'props/props.marshal', 'frame/frame.marshal', 'cpython_sort', 'spec/spec.enc,spec.args'], oracles=['c04']),
-    'C05': dict(mods=['C05'], thms=['C05_decode_agrees_value', 'C05_decode_agrees_table', 'C05_parse_wire', 'C05_no_validation', 'C05_timestamp_refused', 'C05_timestamp_ms'],
+    'C05': dict(mods=['C05', 'C05Frame'], thms=['C05_decode_agrees_value', 'C05_decode_agrees_table', 'C05_parse_wire', 'C05_no_validation', 'C05_timestamp_refused', 'C05_timestamp_ms', 'C05_method_args', 'C05_method_frame', 'C05_header_frame'],
                 tie=['tieA_table_mapping', 'tieA_methods', 'tieA_struct_formats', 'tieA_struct_uses', 'tieA_content_header_struct_uses', 'tieA_codec_calls'],
                 lanes=['dec_prim', 'dec_value:wellformed', 'args/args.unmarshal', 'props/props.unmarshal,flags', 'frame/frame.unmarshal.M,frame.unmarshal.H', 'spec/spec.parse'], oracles=['c05']),
     'C06': dict(mods=['C06'], thms=['C06_prefix_determines', 'C06_envelope', 'C06_stream'],
